@@ -42,7 +42,8 @@ def run(chk: Check):
             + su.crash_scenarios(chk.n(3, 4)))
     chk.exhaustive = True        # crash points: every call of every merge shape listed in the rule
     su.run_property(chk, 'C10', PROPS, gen, nontrivial, scenarios=scen,
-                    extra=lambda c, cfg: su.declared_associated_scenarios(c))
+                    extra=lambda c, cfg: (su.declared_associated_scenarios(c),
+                                          su.rewrite_input_then_retry_scenarios(c, c.rng, c.n(6, 40))))
 
 
 def replay(chk: Check, rp):
